@@ -3,10 +3,32 @@ From Coq Require Import List NArith Arith Bool Lia String ZArith.
 From GV Require Import Base.Ints Gen.Math Gen.Kernel Model.Mirror
   Proofs.Thresholds Proofs.MirrorAuth Proofs.MirrorNoop Proofs.MirrorChain Proofs.MirrorCert
   Proofs.MirrorTotal Proofs.MirrorRestart Proofs.MirrorLog
-  Proofs.MirrorResumeWit Proofs.MirrorResumeLoad Proofs.MirrorResumeInv Proofs.MirrorResumeStart
+  Proofs.MirrorResumeWit Proofs.MirrorResumeLoad Proofs.MirrorResumeRT Proofs.MirrorResumeInv Proofs.MirrorResumeStart
   Proofs.MirrorResumeOps Proofs.MirrorResumeOps2 Proofs.MirrorResumeOps3.
 Import ListNotations.
 Local Open Scope N_scope.
+
+(** a view gains proposed headers that are in its (grown) cell or among the replayed headers *)
+Lemma yview_phs_grow rs rp rs' rp' w w' :
+  yview rs rp w ->
+  v_h w' = v_h w -> v_r w' = v_r w -> v_vals w' = v_vals w -> v_pv w' = v_pv w -> v_pc w' = v_pc w ->
+  sm_mpc (v_sum w') = sm_mpc (v_sum w) ->
+  re_pv (rs_entry rs' (v_h w) (v_r w)) = re_pv (rs_entry rs (v_h w) (v_r w)) ->
+  re_pc (rs_entry rs' (v_h w) (v_r w)) = re_pc (rs_entry rs (v_h w) (v_r w)) ->
+  incl (re_phs (rs_entry rs (v_h w) (v_r w))) (re_phs (rs_entry rs' (v_h w) (v_r w))) ->
+  incl rp rp' ->
+  (forall q, In q (v_phs w') -> In q (v_phs w) \/
+     (exists q0, In q0 (re_phs (rs_entry rs' (v_h w) (v_r w))) /\ hd_hash (ph_hdr q0) = hd_hash (ph_hdr q)) \/
+     (exists x, In x rp' /\ hd_height x = v_h w /\ hd_hash x = hd_hash (ph_hdr q))) ->
+  yview rs' rp' w'.
+Proof.
+  intros Hy E1 E2 E3 E4 E5 E6 C1 C2 I1 I2 Hnew.
+  pose proof (yview_mono rs rp rs' rp' w C1 C2 I1 I2 Hy) as (A&B&C&D&E&F).
+  unfold yview, mpc_ok, vrel, view_votes, phs_corr in *. cbn [N.eqb KPrevote KPrecommit Pos.eqb] in *.
+  rewrite E1, E2, E3, E4, E5, E6.
+  split; [exact A|]. split; [exact B|]. split; [exact C|]. split; [exact D|]. split; [exact E|].
+  intros q Hq. destruct (Hnew q Hq) as [Hold|Hn]; [apply F; exact Hold|exact Hn].
+Qed.
 
 (** * The commit-proof backfill of the committing view *)
 Lemma backfill_fold_ne keys h r entries : forall pc any pc' any',
@@ -118,7 +140,16 @@ Proof.
       { unfold ne_state, s2. cbn. split; [split; [exact (proj1 Nc)|exact Hne']|]. split; [exact Nv|exact Nn]. }
       split.
       { unfold n1. split; intros Hpc; apply Hcell; [apply N1v|apply N1n]; exact Hpc. }
-      split; [exact Xk|exact S2].
+      split; [|exact S2]. split; [exact (proj1 Xk)|]. destruct Xk as [_ [Yv Yn]].
+      assert (Er2 : st_rounds s2 = rs_set (st_rounds s) (v_h (k_com s)) r e') by (apply (f_equal sr_rounds) in Est; exact Est).
+      assert (Hother : forall w0, v_h w0 = v_h (k_vot s) ->
+                yview (st_rounds s) (st_replayed s) w0 -> yview (st_rounds s2) (st_replayed s2) w0).
+      { intros w0 Hh0 Hw0. assert (Hcw : ((v_h (k_com s) =? v_h w0) && (r =? v_r w0)) = false).
+        { rewrite Hh0. destruct (N.eqb_spec (v_h (k_com s)) (v_h (k_vot s))); [lia|reflexivity]. }
+        rewrite Er2. change (st_replayed s2) with (st_replayed s).
+        eapply yview_mono; [| | | |exact Hw0]; rewrite ?rs_entry_set, ?Hcw; try reflexivity; intros x Hx; exact Hx. }
+      destruct Hc as (_&_&_&Hnh&_).
+      split; [apply (Hother (k_vot s)); [reflexivity|exact Yv]|apply (Hother (k_nxt s)); [exact Hnh|exact Yn]].
     + apply (pref_one ih ivs s s2 (WPC (sub64 (hd_height (ph_hdr p)) 1) r coll)); [reflexivity|reflexivity|exact Xs|exact S2| |reflexivity].
       eapply adv_sadv; [exact Hc|exact (proj1 HI')|apply adv_frame; exact F].
   - intros HI' HP' Ha' F. split.
@@ -183,14 +214,21 @@ Proof.
                    st_replayed s1 = st_replayed s /\ st_log s1 = st_log s).
   { unfold s1, put_view, get_view. destruct Hvid as [->|[->| ->]]; cbn; repeat split. }
   destruct Hviews as ((W1&W2&W3&W4)&(W5&W6&W7&W8)&(W9&W10&W11&W12)&W13&W14&W15&W16&W17&W18).
-  assert (Hkok1 : kok s1).
-  { unfold kok, s1, put_view, get_view. destruct Hvid as [->|[->| ->]]; cbn; intros q [Hq|Hq].
-    - apply in_app_or in Hq as [Hq|[Hq|[]]]; [apply Xk; left; exact Hq|subst q; exact Hkeys].
-    - apply Xk; right; exact Hq.
-    - apply Xk; left; exact Hq.
-    - apply in_app_or in Hq as [Hq|[Hq|[]]]; [apply Xk; right; exact Hq|subst q; exact Hkeys].
-    - apply Xk; left; exact Hq.
-    - apply Xk; right; exact Hq. }
+  assert (Hkok1 : kok0 s1).
+  { destruct Xk as [Xk0 _]. unfold kok0, s1, put_view, get_view. destruct Hvid as [->|[->| ->]]; cbn; intros q [Hq|Hq].
+    - apply in_app_or in Hq as [Hq|[Hq|[]]]; [apply Xk0; left; exact Hq|subst q; exact Hkeys].
+    - apply Xk0; right; exact Hq.
+    - apply Xk0; left; exact Hq.
+    - apply in_app_or in Hq as [Hq|[Hq|[]]]; [apply Xk0; right; exact Hq|subst q; exact Hkeys].
+    - apply Xk0; left; exact Hq.
+    - apply Xk0; right; exact Hq. }
+  assert (Hviews2 : (v_vals (k_vot s1) = v_vals (k_vot s) /\ v_sum (k_vot s1) = v_sum (k_vot s) /\
+                     forall q, In q (v_phs (k_vot s1)) -> In q (v_phs (k_vot s)) \/ (q = p /\ vid = ViewIDVoting)) /\
+                    (v_vals (k_nxt s1) = v_vals (k_nxt s) /\ v_sum (k_nxt s1) = v_sum (k_nxt s) /\
+                     forall q, In q (v_phs (k_nxt s1)) -> In q (v_phs (k_nxt s)) \/ (q = p /\ vid = ViewIDNextRound))).
+  { unfold s1, put_view, get_view. destruct Hvid as [->|[->| ->]]; cbn; repeat split; intros q Hq; auto;
+      apply in_app_or in Hq as [Hq|[Hq|[]]]; auto. }
+  destruct Hviews2 as ((V1&V2&V3)&(V4&V5&V6)).
   set (h := hd_height (ph_hdr p)). set (r := ph_round p).
   set (e := rs_entry (st_rounds s) h r).
   assert (Est : stores_of s2 = mk_stores (sr_nhr (stores_of s)) (sr_hdrs (stores_of s))
@@ -242,7 +280,34 @@ Proof.
     { unfold n1, n1_view. change (k_vot s2) with (k_vot s1). change (k_nxt s2) with (k_nxt s1).
       change (st_rounds s2) with (rs_save_ph (st_rounds s1) p). rewrite W15, W2, W3, W4, W6, W7, W8.
       split; intros Hpc; rewrite (proj1 (Hcells _ _)); [apply N1v|apply N1n]; exact Hpc. }
-    split; [exact Hkok1|exact S2]. }
+    split; [|exact S2]. split; [exact Hkok1|].
+    destruct Xk as [_ [Yv Yn]].
+    assert (Hphs_incl : forall h0 r0, incl (re_phs (rs_entry (st_rounds s) h0 r0))
+                                           (re_phs (rs_entry (rs_save_ph (st_rounds s) p) h0 r0))).
+    { intros h0 r0. unfold rs_save_ph. fold h r e. destruct (existsb _ (re_phs e)); [intros x Hx; exact Hx|].
+      rewrite rs_entry_set. destruct ((h =? h0) && (r =? r0)) eqn:E; [|intros x Hx; exact Hx].
+      apply andb_true_iff in E as [A B]. apply N.eqb_eq in A, B. subst h0 r0. cbn [re_phs]. fold e.
+      intros x Hx. apply in_or_app; left; exact Hx. }
+    assert (Hphs_new : exists q0, In q0 (re_phs (rs_entry (rs_save_ph (st_rounds s) p) h r)) /\
+                                  hd_hash (ph_hdr q0) = hd_hash (ph_hdr p)).
+    { unfold rs_save_ph. fold h r e. destruct (existsb _ (re_phs e)) eqn:Ex.
+      - apply existsb_exists in Ex as (q0&Hq0&Eq0). apply andb_true_iff in Eq0 as [Eq0 _]. apply bytes_eqb_eq in Eq0.
+        exists q0. split; [exact Hq0|exact Eq0].
+      - rewrite rs_entry_set, !N.eqb_refl. cbn [andb re_phs]. exists p.
+        split; [apply in_or_app; right; left; reflexivity|reflexivity]. }
+    unfold Y. change (st_rounds s2) with (rs_save_ph (st_rounds s1) p). change (st_replayed s2) with (st_replayed s1).
+    change (k_vot s2) with (k_vot s1). change (k_nxt s2) with (k_nxt s1). rewrite W15, W17.
+    split.
+    + eapply (yview_phs_grow _ _ _ _ (k_vot s) (k_vot s1)); [exact Yv|exact W3|exact W4|exact V1|exact W1|exact W2|rewrite V2; reflexivity
+        |apply (proj2 (Hcells _ _))|apply (proj1 (Hcells _ _))|apply Hphs_incl|intros x Hx; exact Hx|].
+      intros q Hq. destruct (V3 q Hq) as [Hold|[-> Ev]]; [left; exact Hold|right; left].
+      destruct Hcase as [(A&B&C)|[(A&B&C)|(A&B&C&D)]]; try (rewrite A in Ev; discriminate).
+      fold h in B. fold r in C. rewrite <- B, <- C. exact Hphs_new.
+    + eapply (yview_phs_grow _ _ _ _ (k_nxt s) (k_nxt s1)); [exact Yn|exact W7|exact W8|exact V4|exact W5|exact W6|rewrite V5; reflexivity
+        |apply (proj2 (Hcells _ _))|apply (proj1 (Hcells _ _))|apply Hphs_incl|intros x Hx; exact Hx|].
+      intros q Hq. destruct (V6 q Hq) as [Hold|[-> Ev]]; [left; exact Hold|right; left].
+      destruct Hcase as [(A&B&C)|[(A&B&C)|(A&B&C&D)]]; try (rewrite A in Ev; discriminate).
+      fold h in B. fold r in C. destruct Hc as (_&_&_&Hnh&Hnr&_). rewrite Hnh, Hnr, <- B, <- C. exact Hphs_new. }
   assert (Pr2 : pref ih ivs s s2).
   { apply (pref_one ih ivs s s2 (WPH p)); [| |exact Xs|exact S2| |reflexivity].
     - unfold s2. cbn. rewrite W18. reflexivity.
